@@ -481,7 +481,7 @@ def raw_form_rule(ctx):
         alts = {repr(t) for g, t in cases(src)}
         obj = P("obj")
         want = {repr(App("filebytes", (App("idx", (obj, Const("file"))),))),
-                repr(App("call:bytes.fromhex", (App("idx", (obj, Const("raw"))),)))}
+                repr(App("a2b_hex", (App("idx", (obj, Const("raw"))),)))}
         R.check("C06-D5 raw encryption info accepted unchanged", alts == want, "bytes come from the whole file / the raw hex string",
                 mod=fi.module, node=fi.node, function=ctx.fq(fi), expected=f"{sorted(want)}", found=f"{sorted(alts)}"[:300])
     # SuitBstr.to_cbor adds one layer; the alternative sits at wrap depth 0 next to cbstr(CoseEncryptTagged)
